@@ -285,7 +285,7 @@ AL_OPS = {
     "set-clear": ("{% set _ = @X.clear() %}", _al(lambda l: l.clear()), True),
     "set-remove": ("{% if @X %}{% set _ = @X.remove(@X[0]) %}{% endif %}", _al(lambda l: l.remove(l[0]) if l else None), True),
     "set-item": ("{% if @X %}{% set _ = @X.__setitem__(0, 'W') %}{% endif %}", _al(lambda l: l.__setitem__(0, "W") if l else None), True),
-    "for-pop": ("{% for q in @X[1:] %}{{ @X.pop() }}{% endfor %}", _al(lambda l: "".join(l.pop() for _ in l[1:])), True),
+    "for-pop": ("{% for e_ in @X[1:] %}{{ @X.pop() }}{% endfor %}", _al(lambda l: "".join(l.pop() for _ in l[1:])), True),
 }
 AL_SHOW = ":{{ @X|join('+') }}:{{ @X|length }}."
 # the rows of a data sheet bound to a `sheet` argument (an ordered dict ID -> row model); reference: a list of row dicts
@@ -1420,6 +1420,194 @@ def _build_parser(sheets, idx_rows):
 
 
 # =====================================================================================
+# (a) Index/Alias.v: instances that change their values in place — the extracted run_all against create_flows
+# =====================================================================================
+# op name -> wire form (Wire/C12Wire.dec_mop)
+def enc_mop(o):
+    fixed = {"pop": "(0)", "pop0": "(1)", "pop-guarded": "(2)", "pop0-guarded": "(3)", "reverse": "(6)", "sort": "(7)", "set-sortrev": "(8)",
+             "set-clear": "(10)", "set-remove": "(11)", "for-pop": "(13)"}
+    if o in fixed:
+        return fixed[o]
+    if o == "append":
+        return f"(4 {enc_str('Z')})"
+    if o == "set-append":
+        return f"(4 {enc_str('S')})"
+    if o == "insert":
+        return f"(5 {enc_str('Y')})"
+    if o == "extend":
+        return f"(9 ({enc_str('Z')} {enc_str('Y')}))"
+    if o == "set-item":
+        return f"(12 {enc_str('W')})"
+    raise ValueError(o)
+
+
+AM_SEL = {"self": ("@V", 0), "first": ("@V[0]", 1), "last": ("@V[-1]", 2)}
+
+
+def gen_alias_case(rng):
+    """templates whose rows change lists in place, a data sheet with a flat and a two-level list field, create_flow rows (bulk,
+    single, the same data row again, a list-valued template argument): one run = one sequence of instances"""
+    ids = rng.sample(["r1", "r2", "r3", "x"], rng.choice([1, 2, 2, 3]))
+    word = lambda: rng.choice(["a", "b", "c", "Lo", "k9", "é1", "Zed", "mm"])
+    data = {i: dict(p=[word() for _ in range(rng.choice([1, 2, 3]))],
+                    q=[[word() for _ in range(rng.choice([1, 2, 3]))] for _ in range(rng.choice([1, 2, 3]))]) for i in ids}
+    lits = [[[word() for _ in range(rng.choice([1, 2, 2, 3]))] for _ in range(rng.choice([1, 2, 3]))] for _ in range(2)]
+    risky = rng.random() < 0.25          # unguarded pops beyond what is there: some instance stops
+
+    def ops():
+        names = [o for o in AL_OPS if risky or AL_OPS[o][2]] + ["pop"]
+        return [rng.choice(names) for _ in range(rng.choice([0, 1, 1, 2, 2, 3]))]
+
+    templates = {}
+    for t in ["ta", "tb"][:rng.choice([1, 2, 2])]:
+        has_arg = rng.random() < 0.5
+        items = []
+        for _ in range(rng.choice([1, 2, 3, 4])):
+            k = rng.random()
+            if k < 0.3:
+                items.append(("loop", ("lit", rng.randrange(2)), ops()))
+            elif k < 0.5:
+                items.append(("loop", ("var", "q"), ops()))
+            else:
+                v, sel = rng.choice([("p", "self"), ("p", "self"), ("q", "first"), ("q", "last")] + ([("g", "self")] * 2 if has_arg else []))
+                items.append(("msg", v, sel, ops()))
+        templates[t] = dict(has_arg=has_arg, items=items)
+    creates = []
+    for k in range(rng.choice([1, 2, 3, 4])):
+        t = rng.choice(list(templates))
+        creates.append(dict(template=t, row_id=rng.choice(["", "", rng.choice(ids)]), new_name=f"n{k}",
+                            arg=[word() for _ in range(rng.choice([1, 2, 3]))] if templates[t]["has_arg"] else None))
+    return dict(ids=ids, data=data, lits=lits, templates=templates, creates=creates, risky=risky)
+
+
+def alias_case_sheets(c):
+    sheets = {"data": [["ID", "p:list", "q:list"]] + [[i, ";".join(c["data"][i]["p"]) + (";" if len(c["data"][i]["p"]) == 1 else ""), nested_cell(c["data"][i]["q"])]
+                                                        for i in c["ids"]]}
+    head = ["row_id", "type", "from", "loop_variable", "message_text"]
+    for t, tp in c["templates"].items():
+        rows = [head]
+        for it in tp["items"]:
+            if it[0] == "msg":
+                _, v, sel, ops = it
+                rows.append(["", "send_message", "", "", al_cell("M", ops, AM_SEL[sel][0].replace("@V", v))])
+            else:
+                _, (kind, what), ops = it
+                rows.append(["", "begin_for", "", "pr", nested_cell(c["lits"][what]) if kind == "lit" else "{@ %s @}" % what])
+                rows.append(["", "send_message", "", "", al_cell("M", ops, "pr")])
+                rows.append(["", "end_for", "", "", ""])
+        sheets[t] = rows
+    idx = [INDEX_HEAD, ["data_sheet", "data", "", "", "", "", ""]]
+    for t, tp in c["templates"].items():
+        idx.append(["template_definition", t, "", "", "g;;|" if tp["has_arg"] else "", "", ""])
+    for cr in c["creates"]:
+        idx.append(["create_flow", cr["template"], "data", cr["row_id"], args_cell([cr["arg"]]) if cr["arg"] is not None else "", cr["new_name"], ""])
+    sheets["content_index"] = idx
+    return sheets
+
+
+def alias_case_instances(c):
+    """the instances of the run in the order create_flows generates them: (flow name, create row number, data row)"""
+    out = []
+    for k, cr in enumerate(c["creates"]):
+        for i in ([cr["row_id"]] if cr["row_id"] else c["ids"]):
+            out.append((f"{cr['new_name']} - {i}", k, i))
+    return out
+
+
+def enc_alias_case(c):
+    def item(it):
+        if it[0] == "msg":
+            _, v, sel, ops = it
+            return f"(0 {enc_str(v)} {AM_SEL[sel][1]} ({' '.join(enc_mop(o) for o in ops)}))"
+        _, (kind, what), ops = it
+        src = f"(0 {enc_str(nested_cell(c['lits'][what]))})" if kind == "lit" else f"(1 {enc_str(what)})"
+        return f"(1 {src} ({' '.join(enc_mop(o) for o in ops)}))"
+    insts = []
+    for name, k, i in alias_case_instances(c):
+        cr = c["creates"][k]
+        tp = c["templates"][cr["template"]]
+        # (variable, the registry object it comes from, value): a field of a data row belongs to the row, an argument to the index row
+        binds = [f"({enc_str('p')} {enc_str('data/' + i + '/p')} {enc_nv(c['data'][i]['p'])})",
+                 f"({enc_str('q')} {enc_str('data/' + i + '/q')} {enc_nv(c['data'][i]['q'])})"]
+        if cr["arg"] is not None:
+            binds.append(f"({enc_str('g')} {enc_str('index row %d/arg' % k)} {enc_nv(cr['arg'])})")
+        insts.append(f"(({' '.join(binds)}) ({' '.join(item(it) for it in tp['items'])}))")
+    return f"(112 6 ({' '.join(insts)}))"
+
+
+def alias_text(o):
+    """what al_cell renders, from the model's observation (printed values, the list afterwards)"""
+    printed, shown = [dec_nv(x) for x in o[0]], dec_nv(o[1])
+    return "M:" + "".join(str(x) for x in printed) + ":" + "+".join(str(x) for x in shown) + f":{len(shown)}."
+
+
+def run_alias_correspondence(ctx, n):
+    """Index/Alias.run_all (extracted, under the policy measured on the code) against create_flows: the same sequences of instances
+    — bulk rows, the same data row again, the same literal cell in several loops, a list-valued argument shared by the instances of
+    an index row — whose rows pop / append / sort / clear ... the lists they are given; every instance compared (message texts),
+    and the instance at which the run stops"""
+    rng, m = ctx.rng, ctx.model
+    cases = [gen_alias_case(rng) for _ in range(n)]
+    outs = m.ask_many([enc_alias_case(c) for c in cases]) if m else None
+    st = {"runs": 0, "instances": 0, "instances_per_run": {}, "runs_with_a_data_row_instantiated_twice": 0, "runs_with_a_literal_cell_in_two_loops": 0,
+          "runs_with_a_shared_argument": 0, "ops": {}, "items": {}, "model": {"ok": 0, "stops": 0, "unsupported": 0}, "policy_as_coded": None}
+    nontrivial = set()
+    for k, c in enumerate(cases):
+        ctx.v.coverage["evaluations"] += 1
+        insts = alias_case_instances(c)
+        st["runs"] += 1
+        st["instances"] += len(insts)
+        st["instances_per_run"][len(insts)] = st["instances_per_run"].get(len(insts), 0) + 1
+        rows_used = [i for _, _, i in insts]
+        st["runs_with_a_data_row_instantiated_twice"] += 1 if len(set(rows_used)) < len(rows_used) else 0
+        lit_loops = [it[1][1] for _, kk, _ in insts for it in c["templates"][c["creates"][kk]["template"]]["items"] if it[0] == "loop" and it[1][0] == "lit"]
+        st["runs_with_a_literal_cell_in_two_loops"] += 1 if len(set(lit_loops)) < len(lit_loops) else 0
+        st["runs_with_a_shared_argument"] += 1 if any(cr["arg"] is not None and not cr["row_id"] and len(c["ids"]) > 1 for cr in c["creates"]) else 0
+        for tp in c["templates"].values():
+            for it in tp["items"]:
+                kind = it[0] + "/" + (it[2] if it[0] == "msg" else it[1][0])
+                st["items"][kind] = st["items"].get(kind, 0) + 1
+                for o in it[-1]:
+                    st["ops"][o] = st["ops"].get(o, 0) + 1
+        r = compile_book(alias_case_sheets(c))
+        if r[0] == "ok":
+            flows = {f["name"]: texts_of(f) for f in r[1]["flows"]}
+            impl = ("ok", [flows.get(nm) for nm, _, _ in insts])
+        else:
+            impl = ("err",)
+        if len(insts) >= 2:
+            nontrivial.add(repr((c["creates"], c["templates"])))
+        if outs is None:
+            continue
+        mo = parse_sexp(outs[k])
+        if not (isinstance(mo, list) and len(mo) == 2):
+            ctx.disagree("Alias.run_all: the model refuses the input", repr(c)[:500], repr(mo)[:200], repr(impl)[:200])
+            continue
+        st["policy_as_coded"] = {"instance_context_private": bool(mo[0][0]), "literal_lists_fresh": bool(mo[0][1])}
+        res = mo[1]
+        if any(is_err(x) and x[1] != 1 for x in res):
+            st["model"]["unsupported"] += 1         # outside the model: nothing claimed
+            continue
+        if res and is_err(res[-1]):
+            st["model"]["stops"] += 1
+            mod = ("err",)
+        else:
+            st["model"]["ok"] += 1
+            mod = ("ok", [[alias_text(o) for o in x[1]] for x in res])
+        if mod != impl:
+            what = "instances that change their values in place: create_flows vs Alias.run_all"
+            if mod[0] == impl[0] == "ok":
+                j = next(j for j, (a, b) in enumerate(zip(mod[1], impl[1])) if a != b)
+                what += f" (instance {j} of {len(insts)}, flow {insts[j][0]!r})"
+                ctx.disagree(what, repr(dict(creates=c["creates"], templates=c["templates"], data=c["data"], lits=c["lits"]))[:900], repr(mod[1][j]), repr(impl[1][j]))
+            else:
+                ctx.disagree(what, repr(dict(creates=c["creates"], templates=c["templates"], data=c["data"], lits=c["lits"]))[:900], repr(mod)[:300],
+                             repr(impl if impl[0] == "ok" else r)[:300])
+    ctx.stats["mutation_model_runs"] = st
+    return nontrivial
+
+
+# =====================================================================================
 # identity of the mutable values an instance can reach (wave 4)
 # =====================================================================================
 _IMMUTABLE = (str, int, float, bool, type(None), bytes, frozenset, complex, range)
@@ -1730,6 +1918,8 @@ def run(ctx):
     nontrivial |= run_args_correspondence(ctx, factory, n_args)
     n_bulk = (1500 if thorough else 150) * ctx.scale
     nontrivial |= run_bulk_correspondence(ctx, n_bulk)
+    n_alias = (3000 if thorough else 250) * ctx.scale
+    nontrivial |= run_alias_correspondence(ctx, n_alias)
 
     # ---------------- (b) differential
     # a case costs ~0.85 s since wave 3 (markup features, nested blocks, the history on one parser): 1800 keeps the thorough tier under 30 min
